@@ -12,12 +12,14 @@ import (
 	"fmt"
 	"os"
 	"runtime"
+	"runtime/debug"
 	"sort"
 	"strings"
 	"sync"
 	"testing"
 	"time"
 
+	godigest "github.com/opencontainers/go-digest"
 	"pgregory.net/rapid"
 
 	"github.com/regclient/regclient"
@@ -25,6 +27,7 @@ import (
 	"github.com/regclient/regclient/types/descriptor"
 	"github.com/regclient/regclient/types/manifest"
 	"github.com/regclient/regclient/types/ref"
+	"github.com/regclient/regclient/types/referrer"
 	"github.com/regclient/regclient/zz_verif/evid"
 )
 
@@ -52,6 +55,7 @@ type BOp struct {
 	Art     int    `json:"art"`
 	Del     string `json:"del,omitempty"` // check | manifest | both
 	StartUs int    `json:"start_us"`      // start offset of this member
+	RefForm string `json:"ref_form,omitempty"`
 }
 
 // Op is one step of a history.
@@ -64,6 +68,12 @@ type Op struct {
 	Filter  Filter `json:"filter"`          // list
 	Look    bool   `json:"look"`            // after the step, also list all subjects through the client under test
 	Batch   []BOp  `json:"batch,omitempty"` // batch
+	// dimensions added by the generator-domain audit (zero values = the original behaviour)
+	RefForm  string `json:"ref_form,omitempty"`  // list: "tag+digest" | "default" (default tag; subject 0 only); delete: "tag+digest"
+	Platform int    `json:"platform,omitempty"`  // list of subject 0: ask for the multi-platform index with WithReferrerPlatform (1 linux/amd64 = subject 0, 2 linux/arm64 = an image nobody names)
+	Ctx      string `json:"ctx,omitempty"`       // "" live | cancelled | expired (context already done when the call is made) | midflight (list only: cancelled when the CancelAt-th request of the call arrives)
+	CancelAt int    `json:"cancel_at,omitempty"` // midflight: 1..
+	Mixed    bool   `json:"mixed,omitempty"`     // batch: members may name different subjects
 }
 
 // Case is one generated history with its configuration.
@@ -73,6 +83,9 @@ type Case struct {
 	Procs   int   `json:"procs"`     // GOMAXPROCS while the case runs (0 = unchanged)
 	Arts    []Art `json:"arts"`
 	History []Op  `json:"history"`
+	// ColdStart: the client under test is not asked anything before the first step (its feature detection and
+	// caches are still empty when the history begins)
+	ColdStart bool `json:"cold_start,omitempty"`
 }
 
 // ---------------------------------------------------------------- generator
@@ -96,11 +109,18 @@ func genArt(t *rapid.T, i int, subjW []int) Art {
 	}
 	a.Annot = rapid.IntRange(0, len(annotSets)-1).Draw(t, "annot")
 	a.Payload = rapid.IntRange(0, len(payloads)-1).Draw(t, "payload")
-	switch rapid.IntRange(0, 3).Draw(t, "push_style") {
+	switch rapid.IntRange(0, 4).Draw(t, "push_style") {
 	case 1:
 		a.ByTag = true
 	case 2:
 		a.Child = true
+	case 4:
+		a.ByTag, a.Shared = true, true
+	}
+	a.Sha512 = rapid.IntRange(0, 5).Draw(t, "art_sha512") == 0
+	a.PartialSubject = rapid.IntRange(0, 5).Draw(t, "partial_subject") == 0
+	if a.Kind == "image" {
+		a.NoMediaType = rapid.IntRange(0, 5).Draw(t, "no_media_type") == 0
 	}
 	return a
 }
@@ -126,7 +146,9 @@ func genFilter(t *rapid.T) Filter {
 	return f
 }
 
-var delModes = []string{"check", "manifest", "both"}
+var delModes = []string{"check", "manifest", "both", "fetched"}
+
+var ctxKinds = []string{"cancelled", "expired", "midflight"}
 
 // gen draws a case. conc selects the concurrency-focused distribution (more
 // batches, mostly registries without the referrers API).
@@ -138,18 +160,24 @@ func gen(t *rapid.T, conc bool) Case {
 	}
 	c.Sys.Kind = rapid.SampledFrom(kinds).Draw(t, "system")
 	if c.Sys.Kind == "reg-api" {
-		c.Sys.PageSize = rapid.SampledFrom([]int{0, 1, 2, 1}).Draw(t, "page")
+		c.Sys.PageSize = rapid.SampledFrom([]int{0, 1, 2, 1, 3}).Draw(t, "page")
 		c.Sys.ServerFilter = rapid.Bool().Draw(t, "server_filter")
+		if c.Sys.PageSize > 0 {
+			c.Sys.LinkAbs = rapid.IntRange(0, 2).Draw(t, "link_abs") == 0
+		}
 	}
 	if c.Sys.Kind != "ocidir" {
 		c.Sys.Cache = rapid.Bool().Draw(t, "cache")
 		if c.Sys.Cache {
 			c.Sys.CacheCount = rapid.SampledFrom([]int{50, 1, 2}).Draw(t, "cache_count")
+			c.Sys.CacheShort = rapid.IntRange(0, 5).Draw(t, "cache_short") == 0
 		}
+		c.Sys.ReqConcurrent = rapid.SampledFrom([]int{0, 0, 1, 0, 2}).Draw(t, "req_concurrent")
 		c.Sys.TagDelete = rapid.Bool().Draw(t, "tag_delete")
 		c.Sys.HeadNoDigest = rapid.IntRange(0, 3).Draw(t, "head_no_digest") == 0
 	}
 	c.Sys.Sha512Absent = rapid.IntRange(0, 4).Draw(t, "sha512_absent") == 0
+	c.Sys.External = rapid.IntRange(0, 4).Draw(t, "external") == 0
 
 	subjW := []int{0, 0, 0, 1, 2, 0, 2, 0}
 	if conc {
@@ -169,6 +197,7 @@ func gen(t *rapid.T, conc bool) Case {
 		c.Delays = append(c.Delays, rapid.SampledFrom(delayTable).Draw(t, "delay"))
 	}
 	c.Procs = rapid.SampledFrom([]int{0, 1, 2, 4}).Draw(t, "procs")
+	c.ColdStart = rapid.Bool().Draw(t, "cold_start")
 
 	// symbolic state, only used to bias choices (the interpreter makes every op total)
 	stored := map[string]bool{}
@@ -194,28 +223,63 @@ func gen(t *rapid.T, conc bool) Case {
 	for k := 0; k < n; k++ {
 		op := Op{Look: rapid.Bool().Draw(t, "look")}
 		w := rapid.IntRange(0, 8+batchW).Draw(t, "op_kind")
+		// a call made with a context that is already done (or, for lists, that is cancelled while the call runs)
+		doneCtx := rapid.IntRange(0, 11).Draw(t, "done_ctx") == 0
 		switch {
 		case w <= 3:
 			op.Op = "put"
 			op.Art = pick(false, "put_art")
-			stored[u.arts[op.Art].digest] = true
+			if doneCtx {
+				op.Ctx = rapid.SampledFrom(ctxKinds[:2]).Draw(t, "ctx")
+				if c.Sys.Kind == "ocidir" { // layouts do not look at the context: the put happens
+					stored[u.arts[op.Art].digest] = true
+				}
+			} else {
+				stored[u.arts[op.Art].digest] = true
+			}
 		case w <= 6:
 			op.Op = "delete"
 			op.Art = pick(true, "del_art")
 			op.Del = rapid.SampledFrom(delModes).Draw(t, "del_mode")
-			delete(stored, u.arts[op.Art].digest)
+			if rapid.IntRange(0, 4).Draw(t, "del_ref_form") == 0 {
+				op.RefForm = "tag+digest"
+			}
+			if doneCtx {
+				op.Ctx = rapid.SampledFrom(ctxKinds[:2]).Draw(t, "ctx")
+				if c.Sys.Kind == "ocidir" {
+					delete(stored, u.arts[op.Art].digest)
+				}
+			} else {
+				delete(stored, u.arts[op.Art].digest)
+			}
 		case w <= 8:
 			op.Op = "list"
 			op.Subject = rapid.SampledFrom([]int{0, 0, 2, 1}).Draw(t, "list_subject")
 			op.ByTag = rapid.Bool().Draw(t, "list_by_tag")
 			op.Filter = genFilter(t)
+			switch rapid.IntRange(0, 7).Draw(t, "list_ref_form") {
+			case 0:
+				op.RefForm = "tag+digest"
+			case 1:
+				op.RefForm = "default"
+			}
+			if op.Subject == 0 && rapid.IntRange(0, 3).Draw(t, "list_platform_on") == 0 {
+				op.Platform = rapid.IntRange(1, 2).Draw(t, "list_platform")
+			}
+			if doneCtx || rapid.IntRange(0, 7).Draw(t, "list_ctx") == 0 {
+				op.Ctx = rapid.SampledFrom(ctxKinds).Draw(t, "ctx")
+				if op.Ctx == "midflight" {
+					op.CancelAt = rapid.IntRange(1, 4).Draw(t, "cancel_at")
+				}
+			}
 		default:
 			op.Op = "batch"
 			op.Subject = rapid.SampledFrom([]int{0, 0, 0, 2, 1}).Draw(t, "batch_subject")
+			op.Mixed = rapid.IntRange(0, 4).Draw(t, "batch_mixed") == 0
 			cand := []int{}
 			seen := map[string]bool{}
 			for i, a := range u.arts {
-				if a.Art.Subject == op.Subject && !seen[a.digest] {
+				if (op.Mixed || a.Art.Subject == op.Subject) && !seen[a.digest] {
 					seen[a.digest] = true
 					cand = append(cand, i)
 				}
@@ -236,6 +300,9 @@ func gen(t *rapid.T, conc bool) Case {
 				if isStored != flip {
 					b.Op = "delete"
 					b.Del = rapid.SampledFrom(delModes).Draw(t, "del_mode")
+					if rapid.IntRange(0, 4).Draw(t, "del_ref_form") == 0 {
+						b.RefForm = "tag+digest"
+					}
 				} else {
 					b.Op = "put"
 				}
@@ -363,15 +430,16 @@ type run struct {
 	step int
 	desc string // description of the current step
 	// evidence
-	classes     map[string]bool
-	twoLive     bool // at some point two live artifacts named one subject
-	liveDeletes int  // deletes of a stored artifact
-	batches     int  // concurrent batches with >= 2 members
-	watchdog    bool
+	classes      map[string]bool
+	twoLive      bool // at some point two live artifacts named one subject
+	liveDeletes  int  // deletes of a stored artifact
+	batches      int  // concurrent batches with >= 2 members
+	watchdog     bool
 	lastMainList [3]int // step of the last list through the client under test per subject (-1 none)
 	lastMutation [3]int
-	tagged       map[string]bool // artifact tags that currently resolve
+	tagOwner     map[string]string // artifact tags that currently resolve -> digest
 	everStored   map[string]bool
+	doneCalls    int // calls made so far through the client under test with a cancelled / expired context
 }
 
 func (r *run) class(s string) { r.classes[s] = true }
@@ -409,8 +477,7 @@ func (r *run) names(ds []string) string {
 
 // compareList judges one answer of ReferrerList against the model. who says
 // through which client / reference form the question was asked.
-func (r *run) compareList(who string, si int, f Filter, descs []descriptor.Descriptor) *evid.Violation {
-	subject := r.u.subjects[si]
+func (r *run) compareList(who string, label string, subject string, f Filter, descs []descriptor.Descriptor) *evid.Violation {
 	all := r.md.referrers(subject)
 	want := map[string]*rart{}
 	for d, a := range all {
@@ -428,7 +495,7 @@ func (r *run) compareList(who string, si int, f Filter, descs []descriptor.Descr
 		got[ds]++
 	}
 	sort.Strings(order)
-	where := fmt.Sprintf("step %d (%s): ReferrerList(subject %d = %s, %s) %s on %s", r.step, r.desc, si, short(subject), f, who, r.sysDesc())
+	where := fmt.Sprintf("step %d (%s): ReferrerList(%s = %s, %s) %s on %s", r.step, r.desc, label, short(subject), f, who, r.sysDesc())
 	wantKeys := []string{}
 	for d := range want {
 		wantKeys = append(wantKeys, d)
@@ -476,67 +543,210 @@ func (r *run) compareList(who string, si int, f Filter, descs []descriptor.Descr
 
 func (r *run) sysDesc() string {
 	s := r.c.Sys
+	ext := ""
+	if s.External {
+		ext = ", artifacts in a separate repository (WithReferrerSource)"
+	}
 	switch s.Kind {
 	case "ocidir":
-		return "an OCI layout"
+		return "an OCI layout" + ext
 	case "reg-api":
-		return fmt.Sprintf("a registry with the referrers API (page size %d, server filter %v, client cache %v)", s.PageSize, s.ServerFilter, s.Cache)
+		return fmt.Sprintf("a registry with the referrers API (page size %d, server filter %v, client cache %v%s)", s.PageSize, s.ServerFilter, s.Cache, ext)
 	}
-	return fmt.Sprintf("a registry without the referrers API (tag delete %v, client cache %v)", s.TagDelete, s.Cache)
+	return fmt.Sprintf("a registry without the referrers API (tag delete %v, client cache %v%s)", s.TagDelete, s.Cache, ext)
 }
 
-// subjectRef returns the reference used to ask for a subject's referrers.
-func (r *run) subjectRef(si int, byTag bool) (ref.Ref, bool, error) {
-	if byTag {
-		if si == 0 {
-			rf, err := r.e.refTag(baseTag)
-			return rf, true, err
-		}
-		if a := r.u.arts[0]; si == 2 && a.tag != "" && r.md.stored[a.digest] && r.tagHolds(a) {
-			rf, err := r.e.refTag(a.tag)
-			return rf, true, err
-		}
-	}
-	rf, err := r.e.refDigest(r.u.subjects[si])
-	return rf, false, err
+// ask describes one referrers question.
+type ask struct {
+	si       int    // subject 0..2
+	byTag    bool   // tag reference when the subject currently has one
+	form     string // "" | tag+digest | default
+	platform int    // 0 | 1 amd64 | 2 arm64 (subject 0 only)
+	f        Filter
+	ctx      string // "" | cancelled | expired | midflight
+	cancelAt int
 }
 
-// tagHolds: the artifact's own tag is only usable after it was pushed by tag;
-// a duplicate definition pushed by digest stores the same manifest without it.
-func (r *run) tagHolds(a *rart) bool { return r.tagged[a.tag] }
+// subjectRef returns the reference used to ask for a subject's referrers, a label for messages and the digest
+// whose referrers the answer must be.
+func (r *run) subjectRef(q ask) (ref.Ref, string, string, []scheme.ReferrerOpts, error) {
+	si := q.si
+	subject := r.u.subjects[si]
+	label := fmt.Sprintf("subject %d", si)
+	var opts []scheme.ReferrerOpts
+	if r.c.Sys.External {
+		src, err := r.e.refName(true, "")
+		if err != nil {
+			return ref.Ref{}, "", "", nil, err
+		}
+		opts = append(opts, scheme.WithReferrerSource(src))
+	}
+	// the subject's own tag, if it has one right now (subject 2 lives in the artifacts' repository: its tag
+	// cannot be resolved in the subjects' repository when the two differ)
+	tag := ""
+	if si == 0 {
+		tag = baseTag
+	} else if a := r.u.arts[0]; si == 2 && a.tag != "" && r.tagOwner[a.tag] == a.digest && !r.c.Sys.External {
+		tag = a.tag
+	}
+	if si == 0 && q.platform != 0 {
+		// the multi-platform index, resolved to one platform by the client
+		plat := platAMD64
+		if norm(q.platform, 3) == 2 {
+			plat, subject = platARM64, armDigest
+			label = "linux/arm64 image of the index"
+		} else {
+			label = "subject 0 as linux/amd64 image of the index"
+		}
+		opts = append(opts, scheme.WithReferrerPlatform(plat))
+		r.class("list:platform")
+		suffix := "@" + multiDigest
+		switch {
+		case q.form == "tag+digest":
+			suffix = ":" + multiTag + "@" + multiDigest
+		case q.byTag:
+			suffix = ":" + multiTag
+		}
+		rf, err := r.e.refName(false, suffix)
+		return rf, label + " (" + suffix + ")", subject, opts, err
+	}
+	suffix := "@" + subject
+	switch {
+	case q.form == "default" && si == 0:
+		suffix = "" // the default tag
+		if !r.e.isReg() {
+			suffix = "" // ocidir://dir (tag and digest empty: the layout's default tag)
+		}
+		r.class("list:ref-default-tag")
+	case q.form == "tag+digest":
+		t := tag
+		if t == "" {
+			t = strayTag
+		}
+		suffix = ":" + t + "@" + subject
+		r.class("list:ref-tag+digest")
+	case q.byTag && tag != "":
+		suffix = ":" + tag
+		r.class("list:by-tag")
+	}
+	rf, err := r.e.refName(false, suffix)
+	if suffix == "" || suffix[0] != '@' {
+		label += " (" + suffix + ")"
+	}
+	return rf, label, subject, opts, err
+}
+
+func trimStack(st string) string {
+	if i := strings.Index(st, "panic("); i >= 0 {
+		st = st[i:]
+	}
+	if len(st) > 1800 {
+		st = st[:1800]
+	}
+	return st
+}
+
+// callCtx returns the context a call is made with.
+func (r *run) callCtx(kind string) (context.Context, context.CancelFunc) {
+	switch kind {
+	case "cancelled":
+		ctx, cancel := context.WithCancel(r.ctx)
+		cancel()
+		return ctx, cancel
+	case "expired":
+		return context.WithDeadline(r.ctx, time.Now().Add(-time.Second))
+	}
+	return context.WithCancel(r.ctx)
+}
 
 // list asks through a client and judges the answer.
-func (r *run) list(rc *regclient.RegClient, who string, si int, byTag bool, f Filter) *evid.Violation {
-	rf, usedTag, err := r.subjectRef(si, byTag)
+func (r *run) list(rc *regclient.RegClient, who string, q ask) *evid.Violation {
+	rf, label, subject, opts, err := r.subjectRef(q)
 	if err != nil {
 		return evid.V("harness-ref", "cannot build subject ref: %v", err)
 	}
-	if usedTag {
-		who += " by tag reference"
-		r.class("list:by-tag")
+	f := q.f
+	ctx, cancel := r.callCtx(q.ctx)
+	defer cancel()
+	if q.ctx == "midflight" && r.e.isReg() {
+		n := 0
+		at := q.cancelAt
+		if at < 1 {
+			at = 1
+		}
+		r.e.hookMu.Lock()
+		r.e.hook = func() {
+			n++
+			if n == at {
+				cancel()
+			}
+		}
+		r.e.hookMu.Unlock()
+		defer func() { r.e.hookMu.Lock(); r.e.hook = nil; r.e.hookMu.Unlock() }()
 	}
-	rl, err := rc.ReferrerList(r.ctx, rf, f.opts()...)
+	var rl referrer.ReferrerList
+	st := ""
+	panicked := func() (p any) {
+		defer func() {
+			if p = recover(); p != nil {
+				st = string(debug.Stack())
+			}
+		}()
+		rl, err = rc.ReferrerList(ctx, rf, append(opts, f.opts()...)...)
+		return nil
+	}()
+	if panicked != nil {
+		ctxNote := "a live context"
+		if q.ctx != "" {
+			ctxNote = "a context that is " + q.ctx
+			if q.ctx == "midflight" {
+				ctxNote = fmt.Sprintf("a context cancelled when request %d of the call arrives", q.cancelAt)
+			}
+		}
+		return evid.V("list-panics", "step %d (%s): ReferrerList(%s, %s) %s on %s with %s panics: %v\n%s", r.step, r.desc, label, f, who, r.sysDesc(), ctxNote, panicked, trimStack(st))
+	}
+	if q.ctx != "" {
+		if rc == r.e.main {
+			r.doneCalls++
+		}
+		r.class("ctx:list-" + q.ctx)
+		if err != nil {
+			// a call whose context ended may fail; what it must not do is change later answers
+			if r.ctx.Err() != nil {
+				r.watchdog = true
+			}
+			r.class("ctx:list-failed")
+			return nil
+		}
+		// it answered nevertheless (layouts, cached answers, cancellation after the last request): the answer counts
+		r.class("ctx:list-answered")
+	}
 	var v *evid.Violation
 	if err != nil {
 		if r.ctx.Err() != nil {
 			r.watchdog = true
 			return nil
 		}
-		v = evid.V("list-error", "step %d (%s): ReferrerList(subject %d, %s) %s on %s failed: %v", r.step, r.desc, si, f, who, r.sysDesc(), err)
+		v = evid.V("list-error", "step %d (%s): ReferrerList(%s, %s) %s on %s failed: %v", r.step, r.desc, label, f, who, r.sysDesc(), err)
 	} else {
-		v = r.compareList(who, si, f, rl.Descriptors)
+		v = r.compareList(who, label, subject, f, rl.Descriptors)
 	}
 	if v != nil && rc == r.e.main && f.none() {
 		// the same question through a fresh client is asked after every step: a failure that only the
 		// client under test shows is a property of its state (cache, feature detection)
-		if r.c.Sys.Cache {
+		switch {
+		case r.doneCalls > 0:
+			// one signature whatever the cache setting: the client's state was shaped by a call whose context had ended
+			v.Sig += "-after-call-with-done-context"
+			v.Msg += fmt.Sprintf(" [%d earlier call(s) through this client were made with a cancelled / expired context]", r.doneCalls)
+		case r.c.Sys.Cache:
 			v.Sig += "-client-under-test-cached"
-		} else {
+		default:
 			v.Sig += "-client-under-test"
 		}
 	}
-	if v == nil && rc == r.e.main {
-		r.lastMainList[si] = r.step
+	if v == nil && rc == r.e.main && q.platform == 0 {
+		r.lastMainList[q.si] = r.step
 	}
 	return v
 }
@@ -608,7 +818,7 @@ func (r *run) verify(mainToo bool) *evid.Violation {
 	// (c) any client asking now gets exactly the model's set (fresh client, no cache)
 	obs := r.e.newClient(false)
 	for si := range r.u.subjects {
-		if v := r.list(obs, "through a fresh client", si, false, Filter{}); v != nil {
+		if v := r.list(obs, "through a fresh client", ask{si: si}); v != nil {
 			return v
 		}
 	}
@@ -618,7 +828,7 @@ func (r *run) verify(mainToo bool) *evid.Violation {
 			if r.lastMainList[si] >= 0 && r.lastMutation[si] > r.lastMainList[si] && r.c.Sys.Cache {
 				r.class("cache:list-mutate-list")
 			}
-			if v := r.list(r.e.main, "through the client under test", si, false, Filter{}); v != nil {
+			if v := r.list(r.e.main, "through the client under test", ask{si: si}); v != nil {
 				return v
 			}
 		}
@@ -635,10 +845,19 @@ func (r *run) mutated(a *rart) {
 }
 
 func (r *run) newManifest(a *rart) (manifest.Manifest, error) {
-	return manifest.New(manifest.WithRaw(append([]byte{}, a.body...)))
+	opts := []manifest.Opts{manifest.WithRaw(append([]byte{}, a.body...))}
+	if a.Art.Sha512 {
+		// the descriptor's digest selects the algorithm the manifest is identified by
+		opts = append(opts, manifest.WithDesc(descriptor.Descriptor{MediaType: a.mediaType, Digest: godigest.Digest(a.digest), Size: int64(len(a.body))}))
+	}
+	m, err := manifest.New(opts...)
+	if err == nil && m.GetDescriptor().Digest.String() != a.digest {
+		return nil, fmt.Errorf("manifest.New computes digest %s, harness %s", m.GetDescriptor().Digest, a.digest)
+	}
+	return m, err
 }
 
-func (r *run) doPut(rc *regclient.RegClient, a *rart) error {
+func (r *run) doPut(ctx context.Context, rc *regclient.RegClient, a *rart) error {
 	m, err := r.newManifest(a)
 	if err != nil {
 		return fmt.Errorf("harness: manifest.New: %w", err)
@@ -656,15 +875,31 @@ func (r *run) doPut(rc *regclient.RegClient, a *rart) error {
 	if err != nil {
 		return fmt.Errorf("harness: ref: %w", err)
 	}
-	return rc.ManifestPut(r.ctx, rf, m, opts...)
+	return rc.ManifestPut(ctx, rf, m, opts...)
 }
 
-func (r *run) doDelete(rc *regclient.RegClient, a *rart, mode string) error {
+func (r *run) doDelete(ctx context.Context, rc *regclient.RegClient, a *rart, mode string, form string) error {
 	rf, err := r.e.refDigest(a.digest)
+	if form == "tag+digest" {
+		// the digest is what is deleted; the tag part of such a reference is ignored
+		t := a.tag
+		if t == "" {
+			t = strayTag
+		}
+		rf, err = r.e.refName(true, ":"+t+"@"+a.digest)
+	}
 	if err != nil {
 		return fmt.Errorf("harness: ref: %w", err)
 	}
 	var opts []regclient.ManifestOpts
+	if mode == "fetched" {
+		// WithManifest(m) with the manifest as the client itself returns it
+		m, err := rc.ManifestGet(ctx, rf)
+		if err != nil {
+			return fmt.Errorf("ManifestGet before delete: %w", err)
+		}
+		return rc.ManifestDelete(ctx, rf, regclient.WithManifest(m))
+	}
 	if mode != "manifest" {
 		opts = append(opts, regclient.WithManifestCheckReferrers())
 	}
@@ -675,7 +910,32 @@ func (r *run) doDelete(rc *regclient.RegClient, a *rart, mode string) error {
 		}
 		opts = append(opts, regclient.WithManifest(m))
 	}
-	return rc.ManifestDelete(r.ctx, rf, opts...)
+	return rc.ManifestDelete(ctx, rf, opts...)
+}
+
+// artClasses labels the audit dimensions of an artifact that is being pushed.
+func (r *run) artClasses(a *rart) {
+	if a.Art.Sha512 {
+		r.class("art:sha512-digest")
+	}
+	if a.Art.PartialSubject {
+		r.class("art:partial-subject-descriptor")
+	}
+	if a.Art.NoMediaType && a.Art.Kind == "image" {
+		r.class("art:no-mediatype-field")
+	}
+	if a.tag == sharedTag {
+		r.class("art:shared-tag")
+		if d, ok := r.tagOwner[sharedTag]; ok && d != a.digest {
+			r.class("art:shared-tag-moves")
+		}
+	}
+	switch norm(a.Art.Annot, len(annotSets)) {
+	case 4:
+		r.class("art:annotations-empty-object")
+	case 5:
+		r.class("art:annotations-escapes")
+	}
 }
 
 func (r *run) art(i int) *rart {
@@ -685,7 +945,7 @@ func (r *run) art(i int) *rart {
 
 func delMode(s string) string {
 	switch s {
-	case "manifest", "both":
+	case "manifest", "both", "fetched":
 		return s
 	}
 	return "check"
@@ -695,7 +955,7 @@ func delMode(s string) string {
 func (r *run) applyPut(a *rart) {
 	r.md.stored[a.digest] = true
 	if a.tag != "" {
-		r.tagged[a.tag] = true
+		r.tagOwner[a.tag] = a.digest // the tag now names this manifest (a shared tag moves)
 	}
 	r.mutated(a)
 }
@@ -703,9 +963,9 @@ func (r *run) applyPut(a *rart) {
 func (r *run) applyDelete(a *rart) {
 	delete(r.md.stored, a.digest)
 	// a manifest delete removes every tag pointing at it
-	for _, b := range r.u.arts {
-		if b.digest == a.digest && b.tag != "" {
-			delete(r.tagged, b.tag)
+	for t, d := range r.tagOwner {
+		if d == a.digest {
+			delete(r.tagOwner, t)
 		}
 	}
 	r.mutated(a)
@@ -726,7 +986,23 @@ func (r *run) stepSeq(op Op) *evid.Violation {
 		}
 		r.class("art:" + a.Art.Kind)
 		r.class(fmt.Sprintf("subject:%d", a.Art.Subject))
-		if err := r.doPut(r.e.main, a); err != nil {
+		r.artClasses(a)
+		if op.Ctx == "cancelled" || op.Ctx == "expired" {
+			// a push made with a context that is already done: it either happens (layouts ignore the context) or fails
+			// having sent nothing; verify() then holds the client to the unchanged model
+			ctx, cancel := r.callCtx(op.Ctx)
+			err := r.doPut(ctx, r.e.main, a)
+			cancel()
+			r.doneCalls++
+			r.class("ctx:put-" + op.Ctx)
+			r.desc += " with a " + op.Ctx + " context"
+			if err == nil {
+				r.everStored[a.digest] = true
+				r.applyPut(a)
+			}
+			return nil
+		}
+		if err := r.doPut(r.ctx, r.e.main, a); err != nil {
 			if r.ctx.Err() != nil {
 				r.watchdog = true
 				return nil
@@ -752,7 +1028,23 @@ func (r *run) stepSeq(op Op) *evid.Violation {
 		} else {
 			r.class("op:delete-absent")
 		}
-		err := r.doDelete(r.e.main, a, mode)
+		if op.RefForm == "tag+digest" {
+			r.class("delete:ref-tag+digest")
+		}
+		if op.Ctx == "cancelled" || op.Ctx == "expired" {
+			ctx, cancel := r.callCtx(op.Ctx)
+			err := r.doDelete(ctx, r.e.main, a, mode, op.RefForm)
+			cancel()
+			r.doneCalls++
+			r.class("ctx:delete-" + op.Ctx)
+			r.desc += " with a " + op.Ctx + " context"
+			if err == nil && live {
+				r.liveDeletes++
+				r.applyDelete(a)
+			}
+			return nil
+		}
+		err := r.doDelete(r.ctx, r.e.main, a, mode, op.RefForm)
 		if r.ctx.Err() != nil {
 			r.watchdog = true
 			return nil
@@ -785,7 +1077,11 @@ func (r *run) stepSeq(op Op) *evid.Violation {
 		if r.lastMainList[si] >= 0 && r.lastMutation[si] > r.lastMainList[si] && r.c.Sys.Cache {
 			r.class("cache:list-mutate-list")
 		}
-		if v := r.list(r.e.main, "through the client under test", si, op.ByTag, f); v != nil {
+		q := ask{si: si, byTag: op.ByTag, form: op.RefForm, f: f, ctx: op.Ctx, cancelAt: op.CancelAt}
+		if si == 0 {
+			q.platform = norm(op.Platform, 3)
+		}
+		if v := r.list(r.e.main, "through the client under test", q); v != nil {
 			return v
 		}
 	}
@@ -815,7 +1111,7 @@ func (r *run) stepBatch(op Op) *evid.Violation {
 	seen := map[string]bool{}
 	for _, b := range op.Batch {
 		a := r.art(b.Art)
-		if a.subject != subject || seen[a.digest] || len(ms) >= 4 {
+		if (!op.Mixed && a.subject != subject) || seen[a.digest] || len(ms) >= 4 {
 			continue
 		}
 		seen[a.digest] = true
@@ -861,6 +1157,13 @@ func (r *run) stepBatch(op Op) *evid.Violation {
 			r.class("batch:fallback-with-live-delete")
 		}
 		r.class("batch:" + r.c.Sys.Kind)
+		subs := map[string]bool{}
+		for _, m := range ms {
+			subs[m.a.subject] = true
+		}
+		if len(subs) > 1 {
+			r.class("batch:mixed-subjects")
+		}
 	}
 	r.e.setDelays(r.c.Delays)
 	start := make(chan struct{})
@@ -874,9 +1177,9 @@ func (r *run) stepBatch(op Op) *evid.Violation {
 				time.Sleep(time.Duration(m.b.StartUs) * time.Microsecond)
 			}
 			if m.b.Op == "delete" {
-				m.err = r.doDelete(r.e.main, m.a, m.b.Del)
+				m.err = r.doDelete(r.ctx, r.e.main, m.a, m.b.Del, m.b.RefForm)
 			} else {
-				m.err = r.doPut(r.e.main, m.a)
+				m.err = r.doPut(r.ctx, r.e.main, m.a)
 			}
 		}(m)
 	}
@@ -915,7 +1218,7 @@ func (r *run) stepBatch(op Op) *evid.Violation {
 		// membership failures (an entry lost, left over or duplicated in the list or in the fallback tag) right
 		// after a batch - the state was verified before it - are attributed to the batch's zone; anything
 		// else (types, annotations, filters, harness) keeps its own signature
-		if strings.HasPrefix(v.Sig, "list-entry-") || strings.HasPrefix(v.Sig, "fallback-tag-entry-") {
+		if (strings.HasPrefix(v.Sig, "list-entry-") || strings.HasPrefix(v.Sig, "fallback-tag-entry-")) && !strings.HasSuffix(v.Sig, "-after-call-with-done-context") {
 			v.Msg = "[" + v.Sig + "] " + v.Msg
 			v.Sig = zone
 		}
@@ -947,7 +1250,7 @@ func check(c Case, ev *evid.Collector) *evid.Violation {
 	ctx, cancel := context.WithTimeout(context.Background(), 120*time.Second)
 	defer cancel()
 	r := &run{c: c, e: e, u: u, md: &model{u: u, stored: map[string]bool{}}, ev: ev, ctx: ctx, classes: map[string]bool{},
-		tagged: map[string]bool{}, everStored: map[string]bool{}}
+		tagOwner: map[string]string{}, everStored: map[string]bool{}}
 	for i := range r.lastMainList {
 		r.lastMainList[i] = -1
 		r.lastMutation[i] = -1
@@ -975,11 +1278,26 @@ func check(c Case, ev *evid.Collector) *evid.Violation {
 	if c.Sys.Sha512Absent {
 		r.class("sys:sha512-absent-subject")
 	}
+	if c.Sys.External {
+		r.class("sys:external-referrer-repo")
+	}
+	if c.Sys.LinkAbs {
+		r.class("sys:link-absolute-url")
+	}
+	if c.Sys.CacheShort {
+		r.class("sys:cache-expires-1ms")
+	}
+	if c.Sys.ReqConcurrent > 0 && c.Sys.Kind != "ocidir" {
+		r.class(fmt.Sprintf("sys:req-concurrent-%d", c.Sys.ReqConcurrent))
+	}
 
 	var viol *evid.Violation
 	r.step = -1
 	r.desc = "initial state"
-	viol = r.verify(true)
+	viol = r.verify(!c.ColdStart)
+	if c.ColdStart {
+		r.class("sys:cold-start")
+	}
 	for i := 0; viol == nil && i < len(c.History) && !r.watchdog; i++ {
 		op := c.History[i]
 		r.step = i
@@ -989,7 +1307,8 @@ func check(c Case, ev *evid.Collector) *evid.Violation {
 		} else {
 			v = r.stepSeq(op)
 			if v == nil && !r.watchdog {
-				v = r.verify(op.Look)
+				// after a call with a done context the client under test is always asked too
+				v = r.verify(op.Look || op.Ctx != "")
 			}
 		}
 		if v != nil && !r.watchdog && strings.HasPrefix(v.Sig, "concurrent-") && ev.IsKnown(v.Sig) {
@@ -1044,10 +1363,26 @@ const sigWatchdog = "inconclusive-watchdog"
 
 // ---------------------------------------------------------------- tests
 
+// tolerated reads VERIF_C10_TOLERATE (comma separated signatures). It is a triage aid for whoever works on this
+// check: a listed signature is counted as class "tolerated:<sig>" instead of failing, so that one can look behind an
+// open finding without touching known_findings.jsonl. run.py never sets it.
+func tolerated(sig string) bool {
+	for _, s := range strings.Split(os.Getenv("VERIF_C10_TOLERATE"), ",") {
+		if s != "" && s == sig {
+			return true
+		}
+	}
+	return false
+}
+
 func runCase(t interface {
 	Fatalf(string, ...any)
 }, c Case, ev *evid.Collector) {
 	v := evid.Guard(func() *evid.Violation { return check(c, ev) })
+	if v != nil && tolerated(v.Sig) {
+		ev.Class("tolerated:" + v.Sig)
+		return
+	}
 	if v != nil && v.Sig == sigWatchdog {
 		// inconclusive: fail without a failure record
 		t.Fatalf("%v", v)
@@ -1096,6 +1431,10 @@ func replay(t *testing.T, c Case, ev *evid.Collector, reps int) bool {
 			return true
 		}
 		if v != nil {
+			if tolerated(v.Sig) {
+				ev.Class("tolerated:" + v.Sig)
+				return true
+			}
 			if ev.Report(v, c) {
 				t.Errorf("repetition %d: %v", i, v)
 			}
